@@ -8,10 +8,12 @@
 
 #![allow(dead_code)]
 mod cfg;
+mod domwalk;
 mod gen;
 mod obs;
 mod props;
 mod rcdom;
+mod refcss;
 mod refimpl;
 mod util;
 
